@@ -785,8 +785,15 @@ func effectOrder(repo, file, fn, lean string, effects [][2]string) string {
 		var txt string
 		switch x := n.(type) {
 		case *ast.CallExpr:
+			// (the call of a function literal — `go func() { … }()` — contains the text of its whole
+			// body: only what is inside it is looked at)
+			if _, lit := x.Fun.(*ast.FuncLit); lit {
+				return true
+			}
 			txt = src(x)
 		case *ast.ReturnStmt:
+			txt = src(x)
+		case *ast.BinaryExpr:
 			txt = src(x)
 		default:
 			return true
@@ -882,7 +889,8 @@ func main() {
 		{"GenWrite", func() string {
 			return effectOrder(repo, bs, "AddOperation", "addOperationOrder", [][2]string{
 				{"lock", "b.muWrite.Lock()"}, {"append", "oplog.Append("}, {"status", "b.recalculateReplicationStatus("},
-				{"headput", "datastore.NewKey(\"_localHeads\")"},
+				{"prevheads", "b.Cache().Get(ctx, datastore.NewKey(\"_localHeads\"))"},
+				{"headput", "b.Cache().Put(ctx, datastore.NewKey(\"_localHeads\")"},
 				{"index", "b.updateIndex("}, {"emit", "evtWrite.Emit("}}) +
 				effectOrder(repo, "stores/kvstore/index.go", "UpdateIndex", "kvIndexOrder", [][2]string{
 					{"lock", "i.muIndex.Lock()"}, {"copy", "oplog.Values()"}}) +
@@ -914,6 +922,17 @@ func main() {
 		{"GenDocs", func() string {
 			return nilGuardInRange(repo, "stores/operation/operation.go", "GetDocs", "o.Docs", "getDocsSkipsNil",
 				"the members of a decoded PUTALL batch are handed on only if they are not nil")
+		}},
+		{"GenLoadJoin", func() string {
+			return effectOrder(repo, bs, "Load", "loadJoinOrder", [][2]string{
+				{"fetch", "ipfslog.NewFromEntryHash("}, {"ctxcheck", "ctx.Err()"}, {"headcheck", "l.Get(h.GetHash())"},
+				{"ownlog", "e.GetLogID() != oplog.GetID()"}, {"held", "oplog.Get(e.GetHash())"},
+				{"canappend", "CanAppend(e, provider"}, {"verify", "e.Verify(provider"},
+				{"merge", "oplog.Join(l, -1)"}, {"listing", "oplog.Values().Len() > amount"}, {"trim", "oplog.Join(l, amount)"}})
+		}},
+		{"GenWatch", func() string {
+			return effectOrder(repo, "pubsub/pubsubcoreapi/pubsub.go", "WatchMessages", "watchMessagesOrder", [][2]string{
+				{"subscribe", "PubSub().Subscribe("}, {"close", "sub.Close()"}, {"next", "sub.Next("}})
 		}},
 		{"GenSync", func() string {
 			return effectOrder(repo, bs, "Sync", "syncOrder", [][2]string{
